@@ -214,6 +214,42 @@ Definition edit_split_before_fix (editcmd : bs) : edit_res :=
         end
   end.
 
+(** * Scene shorthands (parsecfg.go validateShorthand)
+
+    [unicode.In(rune(b), unicode.L, unicode.N)] for one byte read as a
+    Latin-1 code point: the ASCII letters and digits, and in the upper half
+    AA B5 BA C0-D6 D8-F6 F8-FF (letters), B2 B3 B9 BC-BE (numbers). *)
+Definition latin1_letter_or_number (c : byte) : bool :=
+  let n := Byte.to_N c in
+  (((48 <=? n) && (n <=? 57)) || ((65 <=? n) && (n <=? 90)) || ((97 <=? n) && (n <=? 122))
+   || (n =? 170) || (n =? 181) || (n =? 186)
+   || ((192 <=? n) && (n <=? 214)) || ((216 <=? n) && (n <=? 246)) || (248 <=? n)
+   || (n =? 178) || (n =? 179) || (n =? 185) || ((188 <=? n) && (n <=? 190)))%N.
+
+Inductive shorthand_res :=
+| ShOk (c : byte)
+| ShBadLength        (* "only ASCII characters allowed as scene shorthands" *)
+| ShBadClass         (* "only ASCII letters, digits and punctuation allowed ..." *)
+| ShPanic.
+
+Definition validate_shorthand (s : bs) : shorthand_res :=
+  if negb (zlen s =? 1) then ShBadLength           (* len(scSchorthand) != 1 *)
+  else
+    match zidx s 0 with                            (* scSchorthand[0] *)
+    | None => ShPanic
+    | Some c => if latin1_letter_or_number c then ShOk c else ShBadClass
+    end.
+
+(** The variant `len > 1` instead of `len != 1` (a seeded fault): the empty
+    shorthand reaches the index. *)
+Definition validate_shorthand_len_gt (s : bs) : shorthand_res :=
+  if 1 <? zlen s then ShBadLength
+  else
+    match zidx s 0 with
+    | None => ShPanic
+    | Some c => if latin1_letter_or_number c then ShOk c else ShBadClass
+    end.
+
 (** The regexp [\s] class of Go (RE2): [\t\n\f\r ] — no vertical tab. *)
 Definition re_space (c : byte) : bool := byte_in c [x09; x0a; x0c; x0d; x20].
 
